@@ -41,6 +41,7 @@ class SimAudioSource(AudioSource):
         self._open = False
         self._bps = sw * ch
         self.served = []          # chunks handed out, in order
+        self.served_seq = []      # event sequence number of each chunk
         self.eof_returned = 0     # how many times None was returned
         self.reads = 0            # number of read() calls
         self.reads_after_eof = 0
@@ -87,6 +88,9 @@ class SimAudioSource(AudioSource):
             self.served.append(chunk)
             if s is not None:
                 s.note("src.data", len(chunk))
+                self.served_seq.append(s.seq)
+            else:
+                self.served_seq.append(0)
             return chunk
         self.eof_returned += 1
         if s is not None:
@@ -168,6 +172,32 @@ class SimPipe:
         else:
             self.eof_returned += 1
         return chunk
+
+    def readinto(self, b):
+        d = self.read(len(b))
+        b[:len(d)] = d
+        return len(d)
+
+    def readinto1(self, b):
+        d = self.read1(len(b))
+        b[:len(d)] = d
+        return len(d)
+
+    def peek(self, n=0):
+        return self._data[self._pos:self._pos + max(1, n)]
+
+    def readable(self):
+        return True
+
+    def seekable(self):
+        return False
+
+    def isatty(self):
+        return False
+
+    def fileno(self):
+        import io
+        raise io.UnsupportedOperation("fileno (simulated stdin)")
 
     short_reads = 0
     _frag_state = 0
